@@ -150,6 +150,9 @@ class Interp:
             return mk_bytes(z3.Const(p.fresh_name(base), T.Bytes))
         if ty == 'none':
             return NONE
+        if ty == 'odict':
+            from .objects import fresh_odict
+            return fresh_odict(self, base)
         if isinstance(ty, tuple):
             k = ty[0]
             if k == 'rec':
@@ -177,6 +180,8 @@ class Interp:
                 return self.fresh_pval(ty[1], base)
             if k == 'ext':
                 return SV('ext', ty[1], extra={})
+            if k == 'clsref':
+                return SV('cls', ty[1])
             if k == 'func':
                 return SV('func', BuiltinRef('contractfunc:' + ty[1]), extra={'contract': ty[1],
                                                                              'id': z3.Const(p.fresh_name(base), TY.Obj)})
@@ -365,6 +370,9 @@ class Interp:
             # a store to an immutable (definition) object: always a frame violation
             self.path.oblige(f"{self.fname}:frame:immutable:{obj.cls or 'rec'}.{attr}", z3.BoolVal(False),
                              note=f"attribute store to a definition object at line {node.lineno}")
+            return
+        if obj.kind == 'valobj':
+            obj.t['attrs'][attr] = v
             return
         if obj.kind == 'cls':
             self.path.oblige(f"{self.fname}:frame:class_state:{obj.t}.{attr}", z3.BoolVal(False),
